@@ -13,6 +13,7 @@ import Proofs.C01Bytes
 import Proofs.C01Open
 import Proofs.C01ReadFull
 import Proofs.C01Limit
+import Proofs.C01Alias
 /-!
   C01 — bit-exact reads through any composition of bit and file readers: property theorems about the
   model (FqModel/Bitio.lean: Read64/Write64/copyBufBits/Buffer; FqModel/C01Readers.lean: the readers;
@@ -330,6 +331,36 @@ example :
     runBuf {} [.write [0xab, 0xc0] 11, .read 3, .write [0xff] 2, .read 20, .read 1, .read 0]
       = [ok ([], none), ok ([true, false, true], none), ok ([], none),
          ok ([false, true, false, true, true, true, true, false, true, true], none), ok ([], some .eof), ok ([], none)] := by
+  decide
+
+/-! ### aliasing: the reader handed to a constructor is still the caller's object -/
+
+/-- `constructors_preserve_argument_cursor`.  Go readers are shared objects; the model keeps the state of an argument
+    inside the state of the composition (`stepAt` operates on it in place).  What each constructor does to the
+    cursor of its argument, transliterated from the code:
+      * NewMultiReader (multireader.go:36-48) calls endPos on every part — SeekBits(0, current), SeekBits(0, end),
+        SeekBits(c, start) — and so leaves every part exactly where it stood, with the same bits; readerEnds are
+        the cumulative lengths (every list of well-formed section / multi / zero parts standing inside their data);
+      * NewSectionReader, NewLimitReader, NewIOBitReadSeeker, NewIOReader / NewIOReadSeeker store the argument
+        untouched (they do not call it at all). -/
+theorem constructors_preserve_argument_cursor (d : Nat) (rs : List Rd) (h : ∀ r ∈ rs, PartOK d r) :
+    (∃ rs', newMultiLoop (step d) rs [] [] 0 = ok (.multi rs' (cumEnds rs' 0) 0) ∧ PartsKept d rs rs') ∧
+    (∀ (r : Rd) (off n : Nat), newSect r off n = .sect r off off (off + n)) ∧
+    (∀ b : Rd, newIOBits b = .ioBits b 0 []) := by
+  refine ⟨?_, fun _ _ _ => rfl, fun _ => rfl⟩
+  obtain ⟨rs', h1, h2⟩ := newMultiLoop_spec d rs [] [] 0 h
+  exact ⟨rs', by simpa using h1, h2⟩
+
+/-- non-vacuity + the demonstration of seeded change S2-C01-2 on the model: a reader that was read for 4 bits, then
+    used as a part of NewMultiReader, still stands at bit 4 and delivers its second nibble; an untouched part is
+    still readable from 0; reading the parts directly does not disturb the composition -/
+example :
+    (match newMulti [match step 8 (newBitReader [0x12, 0x34] none) (.read 4) with | .ok (r, _) => r | _ => .zero 0 0,
+                     newBitReader [0x56] none] with
+      | .ok m =>
+        [stepAt 9 [0] m (.seek 0 .current), stepAt 9 [0] m (.read 4), stepAt 9 [1] m (.read 8)].map
+          (fun o => match o with | .ok (_, res) => (res.n, res.bits.length, res.err) | _ => (-1, 0, none))
+      | _ => []) = [(4, 0, none), (4, 4, none), (8, 8, none)] := by
   decide
 
 /-! ### histories -/
